@@ -78,24 +78,32 @@ def _eq_compares_class(cls_node):
     return want in src
 
 
+def _observed_tag_facts():
+    """The regular expression update_versions applies to a tag and the hotfix revision it assumes for a
+    three-component tag - observed on a private copy of the module (lib/reprobe.py), not read from the AST, so
+    that a pattern moved to a constant or spelled differently is still found."""
+    from lib import reprobe
+    with reprobe.observe() as ev:
+        B2 = reprobe.fresh_module('bert_e/workflow/gitwaterflow/branches.py')
+        hf = B2.branch_factory(None, 'hotfix/91.92.93')
+        casc = B2.BranchCascade()
+        casc.add_branch(hf, hf)
+        before = hf.hfrev
+        casc.update_versions('91.92.93')
+    regex, flags = reprobe.the_pattern(ev, '91.92.93', 'BranchCascade.update_versions')
+    if not isinstance(regex, str) or flags != re.compile('x').flags:
+        raise ValueError('tag pattern of update_versions has an unexpected shape: %r flags %r' % (regex, flags))
+    # hf.hfrev = max(default + 1, hf.hfrev): observable when the result moved
+    if type(before) is not int or type(hf.hfrev) is not int or hf.hfrev <= before:
+        raise ValueError('default hotfix revision of a three-component tag not observable: %r -> %r' % (before, hf.hfrev))
+    return regex, hf.hfrev - 1
+
+
 def gen_facts(ctx):
     from bert_e.workflow.gitwaterflow import branches as B
     path = os.path.join(core.REPO, 'bert_e/workflow/gitwaterflow/branches.py')
     tree = ast.parse(open(path).read())
-    casc = _find(tree, ast.ClassDef, 'BranchCascade')
-    upd = _find(casc, ast.FunctionDef, 'update_versions')
-    regex, hfrev_default = None, None
-    for node in upd.body:
-        if isinstance(node, ast.Assign) and len(node.targets) == 1 and isinstance(node.targets[0], ast.Name):
-            tgt = node.targets[0].id
-            if tgt == 'pattern':
-                regex = ast.literal_eval(node.value)
-            elif tgt == 'hfrev' and isinstance(node.value, ast.Constant):
-                if hfrev_default is not None:
-                    raise ValueError('two constant assignments to hfrev')
-                hfrev_default = node.value.value
-    if not isinstance(regex, str) or not isinstance(hfrev_default, int) or isinstance(hfrev_default, bool):
-        raise ValueError('tag pattern / default hfrev not found in update_versions')
+    regex, hfrev_default = _observed_tag_facts()
     dev = B.branch_factory(None, 'development/1.0')
     devx = B.branch_factory(None, 'development/1')
     stab = B.branch_factory(None, 'stabilization/1.0.3')
@@ -482,11 +490,7 @@ _LIVE = {}
 
 def _live_regex():
     if 'regex' not in _LIVE:
-        tree = ast.parse(open(os.path.join(core.REPO, 'bert_e/workflow/gitwaterflow/branches.py')).read())
-        upd = _find(_find(tree, ast.ClassDef, 'BranchCascade'), ast.FunctionDef, 'update_versions')
-        for node in upd.body:
-            if isinstance(node, ast.Assign) and getattr(node.targets[0], 'id', '') == 'pattern':
-                _LIVE['regex'] = ast.literal_eval(node.value)
+        _LIVE['regex'] = _observed_tag_facts()[0]
     return _LIVE['regex']
 
 
